@@ -66,6 +66,60 @@ ASSUMPTIONS = [
 TRUSTED = ['sympy definite integration of polynomial and exp(-q^2) pieces']
 
 
+PYX = 'pysph/base/c_kernels.pyx'
+
+
+def task_precision(ctx, repo):
+    """The compiled kernels compute in double precision: every floating
+    parameter, return value, attribute and local of c_kernels.pyx is declared
+    `double` (a `float` temporary loses 29 bits and underflows at h ~ 1e-40:
+    the wrappers would no longer return the numbers of the Python classes),
+    and the template the file is generated from declares none either."""
+    import os
+    import re
+    from pyvc.repo import REPO_ROOT
+    m = repo.cython_module(PYX)
+    W = m.path
+    bad = []
+    n = 0
+    for q, rec in sorted(m.ctypes.items()):
+        items = list(rec.get('args', {}).items()) + \
+            list(rec.get('locals', {}).items()) + [('<return>',
+                                                    rec.get('ret'))]
+        for nm, t in items:
+            if t is None:
+                continue
+            n += 1
+            base = t.replace('*', '').replace('[]', '').strip()
+            if base in ('float', 'long double'):
+                bad.append('%s: %s %s' % (q, t, nm))
+    for cname, attrs in sorted(m.cattrs.items()):
+        for nm, t in attrs.items():
+            n += 1
+            if t.replace('*', '').strip() in ('float', 'long double'):
+                bad.append('%s.%s: %s' % (cname, nm, t))
+    obs = [Obligation('precision.declarations_seen', [], z3.BoolVal(n > 200),
+                      W, extra=dict(declarations=n)),
+           Obligation('precision.every_floating_declaration_is_double', [],
+                      z3.BoolVal(not bad), W, extra=dict(narrow=bad[:6]))]
+    tp = os.path.join(REPO_ROOT, PYX + '.mako')
+    try:
+        txt = open(tp).read()
+        hits = re.findall(r'^\s*cdef\s+(?:public\s+)?float\b.*$|'
+                          r'\(\s*float\s+\w+|,\s*float\s+\w+|<float>', txt,
+                          re.M)
+        obs.append(Obligation('precision.template_declares_no_float', [],
+                              z3.BoolVal(not hits), tp,
+                              extra=dict(found=[h.strip() for h in hits][:4])))
+    except OSError:
+        obs.append(Obligation('precision.template_readable', [],
+                              z3.BoolVal(False), tp))
+    ctx.function(m, list(m.functions.values())[0] if m.functions else
+                 m.methods(sorted(m.classes)[0])[sorted(m.methods(sorted(
+                     m.classes)[0]))[0]], 'c_kernels.pyx (declared C types)')
+    ctx.prove('precision.compiled_kernels_compute_in_double', obs)
+
+
 def tasks(tier):
     out = []
     for cls in DIMS:
@@ -75,6 +129,7 @@ def tasks(tier):
             out.append('norm:%s:%d' % (cls, d))
     out.append('twin:all')
     out.append('compiled')
+    out.append('precision')
     out.append('canary')
     return out
 
@@ -305,6 +360,8 @@ def run_task(task, ctx):
         return task_norm(repo, m, cls, int(d), ctx)
     if kind == 'compiled':
         return task_compiled(repo, m, ctx)
+    if kind == 'precision':
+        return task_precision(ctx, repo)
     if kind == 'twin':
         from contracts import C08_twin
         return C08_twin.run(repo, m, ctx)
